@@ -17,7 +17,7 @@ def run(rep, tier):
         "finest-level grids: odd nr, even ntheta, at least three circles and three radial nodes",
         "coarse nodes compared with memcmp; fine-only nodes with 1e-10 relative against the long double block relaxation of the table",
     ]
-    tabs = sc.tables(rep, tier, "c07", "bc")
+    tabs = sc.tables(rep, tier, "c07", "bcf")
     tabs = [t for t in tabs if t["nc"] >= 3 and t["nr"] - t["nc"] >= 3 and t["nr"] % 2 == 1]
     sc.conformance(rep, tier, tabs, "xsmoother", 200, "xsmoother", threads=(1, 3, 16) if tier == "thorough" else (1, 3), scales=(1.0, 1e-9, 1e7))
     try:
